@@ -239,6 +239,23 @@ func symDispatchBinop(fr *frame, op token.Token, t types.Type, x, y value) (valu
 		}
 		panic(unsupported(fmt.Sprintf("symbolic string operator %s", op)))
 	}
+	if op == token.EQL || op == token.NEQ {
+		if _, isStruct := x.(structure); isStruct && hasSymLeaf(x, y) {
+			// == on struct values with symbolic leaves: conjunction of the field equalities
+			eq := aggEqTerm(t, x, y)
+			if op == token.NEQ {
+				eq = mkNot(eq)
+			}
+			return mkval(eq, types.Bool), true
+		}
+		if _, isArr := x.(array); isArr && hasSymLeaf(x, y) {
+			eq := aggEqTerm(t, x, y)
+			if op == token.NEQ {
+				eq = mkNot(eq)
+			}
+			return mkval(eq, types.Bool), true
+		}
+	}
 	ax, apx := x.(absPtr)
 	ay, apy := y.(absPtr)
 	if apx || apy {
@@ -263,4 +280,79 @@ func symDispatchBinop(fr *frame, op token.Token, t types.Type, x, y value) (valu
 		panic(unsupported("operator on abstract pointer"))
 	}
 	return nil, false
+}
+
+// hasSymLeaf: does an aggregate value contain a symbolic scalar or string?
+func hasSymLeaf(vs ...value) bool {
+	for _, v := range vs {
+		switch v := v.(type) {
+		case sym, symstr:
+			return true
+		case structure:
+			for _, f := range v {
+				if hasSymLeaf(f) {
+					return true
+				}
+			}
+		case array:
+			for _, f := range v {
+				if hasSymLeaf(f) {
+					return true
+				}
+			}
+		}
+	}
+	return false
+}
+
+// aggEqTerm: the Bool term "x == y" for two values of (struct/array/scalar) type t.
+func aggEqTerm(t types.Type, x, y value) *Term {
+	switch xv := x.(type) {
+	case structure:
+		yv := y.(structure)
+		st := t.Underlying().(*types.Struct)
+		r := termTrue
+		for i := 0; i < st.NumFields(); i++ {
+			if st.Field(i).Name() == "_" {
+				continue
+			}
+			r = mkAnd(r, aggEqTerm(st.Field(i).Type(), xv[i], yv[i]))
+			if r == termFalse {
+				return r
+			}
+		}
+		return r
+	case array:
+		yv := y.(array)
+		et := t.Underlying().(*types.Array).Elem()
+		r := termTrue
+		for i := range xv {
+			r = mkAnd(r, aggEqTerm(et, xv[i], yv[i]))
+			if r == termFalse {
+				return r
+			}
+		}
+		return r
+	}
+	_, sx := x.(sym)
+	_, sy := y.(sym)
+	if sx || sy {
+		tx, _, ok1 := termOf(x)
+		ty, _, ok2 := termOf(y)
+		if !ok1 || !ok2 {
+			panic(unsupported(fmt.Sprintf("comparison of %T and %T inside an aggregate", x, y)))
+		}
+		return mkEq(tx, ty)
+	}
+	_, ssx := x.(symstr)
+	_, ssy := y.(symstr)
+	if ssx || ssy {
+		xb, _ := strBytes(x)
+		yb, _ := strBytes(y)
+		return bytesEqTerm(xb, yb)
+	}
+	if equals(t, x, y) {
+		return termTrue
+	}
+	return termFalse
 }
